@@ -51,6 +51,8 @@ mod updater;
 mod utxo_entry;
 #[cfg(feature = "verif")]
 mod verif;
+#[cfg(feature = "verif")]
+pub use self::verif::VerifUtxoInput;
 
 #[cfg(test)]
 pub(crate) mod testing;
